@@ -69,6 +69,31 @@ func check(c Case) (kind, what string, classes []string) {
 		src, dst = img.Build(c.Src), img.Build(c.Dst)
 		srcCopy, model = img.Build(c.Src), img.Build(c.Dst)
 	}
+	// orbit content: each pixel is the transform of its left (orbit-h) or upper (orbit-v) neighbour, the natural
+	// adversarial content for in-place use and for shortcuts that compare neighbouring pixels
+	if c.Src.Fill == "orbit-h" || c.Src.Fill == "orbit-v" {
+		for _, b := range []img.Built{src, srcCopy, model} {
+			if !c.InPlace && b.Img == model.Img {
+				continue
+			}
+			m, ok := b.Img.(draw.Image)
+			if !ok {
+				continue
+			}
+			r := m.Bounds()
+			for y := r.Min.Y; y < r.Max.Y; y++ {
+				for x := r.Min.X; x < r.Max.X; x++ {
+					px, py := x-1, y
+					if c.Src.Fill == "orbit-v" {
+						px, py = x, y-1
+					}
+					if px >= r.Min.X && py >= r.Min.Y {
+						m.Set(x, y, f(m.At(px, py)))
+					}
+				}
+			}
+		}
+	}
 	dimg, ok := dst.Img.(draw.Image)
 	if !ok {
 		return "harness", "destination is not a draw.Image", nil
@@ -184,16 +209,78 @@ func TestC10(t *testing.T) {
 		}
 	}
 	ev.Class("fixed-cross-product", int64(n))
+	// big images (2^16 .. 2^18 pixels, many rows, parallelism 1..32 or equal to the row count)
+	{
+		x := ev.Seed()*0x9E3779B97F4A7C15 + 10
+		next := func(n int) int {
+			x ^= x << 13
+			x ^= x >> 7
+			x ^= x << 17
+			return int(x>>33) % n
+		}
+		nb := ev.Pick(24, 400)
+		for i := 0; i < nb; i++ {
+			total := []int{1 << 16, 1 << 18, 1<<18 + 1}[next(3)]
+			h := 64 + next(1200)
+			w := (total + h - 1) / h
+			par := 1 + next(32)
+			if i%4 == 0 {
+				par = []int{h, h + 1, 11, 13}[next(4)]
+			}
+			st := []string{"RGBA64", "NRGBA", "RGBA", "YCbCr", "NRGBA64"}[next(5)]
+			s := img.Spec{Type: st, Ratio: next(6), Rect: [4]int{1, 2, 1 + w, 2 + h}, Parent: [4]int{1, 2, 1 + w, 2 + h}, Fill: "prng", Seed: uint64(i) + ev.Seed()}
+			d := img.Spec{Type: dstTypes[next(4)], Rect: [4]int{-2, 3, -2 + w, 3 + h}, Parent: [4]int{-2, 3, -2 + w, 3 + h}, Fill: "ramp", Seed: 3}
+			c := Case{Src: s, Dst: d, Par: par, Transform: Transforms[next(len(Transforms))]}
+			if i%6 == 5 && (st == "RGBA64" || st == "NRGBA" || st == "RGBA" || st == "NRGBA64") {
+				c.InPlace, c.Dst = true, s
+			}
+			ev.Eval(1)
+			k, wh, _ := check(c)
+			ev.NT(ev.Hash("big", c))
+			if k != "" {
+				ev.Violation("transform", k, wh, c)
+				break
+			}
+		}
+		ev.Class("big-images", int64(nb))
+	}
+	// (height, parallelism) sweep on narrow images for each of the four loops of TransformImageColor, plus orbit
+	// content in place
+	{
+		var np int64
+		swept := false
+		for _, cfg := range [][3]string{{"RGBA64", "RGBA64", ""}, {"NRGBA", "RGBA64", ""}, {"RGBA64", "RGBA", ""}, {"RGBA64", "NRGBA", ""}, {"RGBA64", "RGBA64", "inplace"}, {"RGBA", "RGBA", "inplace"}} {
+			for h := 1; h <= ev.Pick(70, 300) && !swept; h++ {
+				for p := 1; p <= ev.Pick(34, 100); p++ {
+					s := img.Spec{Type: cfg[0], Rect: [4]int{0, 0, 2, h}, Parent: [4]int{0, 0, 2, h}, Fill: []string{"ramp", "orbit-h", "orbit-v"}[(h+p)%3], Seed: 5}
+					d := img.Spec{Type: cfg[1], Rect: [4]int{1, 1, 3, 1 + h}, Parent: [4]int{1, 1, 3, 1 + h}, Fill: "ff", Seed: 6}
+					c := Case{Src: s, Dst: d, Par: p, Transform: Transforms[(h*3+p)%len(Transforms)]}
+					if cfg[2] == "inplace" {
+						c.InPlace, c.Dst = true, s
+					}
+					np++
+					if k, wh, _ := check(c); k != "" {
+						ev.Violation("transform", k, wh, c)
+						swept = true
+						break
+					}
+				}
+			}
+		}
+		ev.Eval(np)
+		ev.NTAdd(np)
+		ev.Class("height-parallelism-pairs", np)
+	}
 	ev.RapidChecks(ev.Pick(5000, 200000))
 	ev.RapidSeed(10)
 	rapid.Check(t, func(rt *rapid.T) {
 		var c Case
 		c.InPlace = rapid.IntRange(0, 5).Draw(rt, "inplace") == 0
 		if c.InPlace {
-			c.Src = img.Gen(rt, "src", img.GenOpts{Types: dstTypes, AllowWrap: true, TallRows: 40})
+			c.Src = img.Gen(rt, "src", img.GenOpts{Types: dstTypes, AllowWrap: true, TallRows: 40, Orbit: true})
 			c.Dst = c.Src
 		} else {
-			c.Src = img.Gen(rt, "src", img.GenOpts{AllowWrap: true, TallRows: 40})
+			c.Src = img.Gen(rt, "src", img.GenOpts{AllowWrap: true, TallRows: 40, Orbit: true})
 			c.Dst = genDst(rt, c.Src)
 		}
 		rows := c.Src.Rect[3] - c.Src.Rect[1]
